@@ -41,7 +41,14 @@ def run_rules(prop: str, repo: index.Repo, tier: str, seed: int,
     try:
       exec(code, scope)  # pylint: disable=exec-used
     except index.AnalysisError as e:
-      ctx.analysis_errors.append(str(e))
+      from sa import advisory  # pylint: disable=g-import-not-at-top
+      rid = str(e).split(':')[0].strip()
+      if rid in advisory.ADVISORY or rid.rstrip('c') in advisory.ADVISORY:
+        if not hasattr(ctx, 'notes'):
+          ctx.notes = []
+        ctx.notes.append(f'NOTE property={prop} rule={rid} {str(e)[:220]} (construction rule, advisory)')
+      else:
+        ctx.analysis_errors.append(str(e))
       failed_names |= {n.id for n in ast.walk(st) if isinstance(n, ast.Name) and isinstance(n.ctx, ast.Store)}
     except NameError as e:
       if getattr(e, 'name', None) in failed_names:
@@ -79,7 +86,7 @@ def _run_variant(args):
     if m.kind == 'break' and not m.allow_error:
       return ('problem', m.id, f'variant {m.id}: {err}')
   if m.kind == 'break':
-    if any(r in fired for r in m.rules):
+    if fired:   # (any deciding rule of the property; advisory construction rules never count - they are not in ctx.violations)
       return ('caught', m.id, {'id': m.id, 'rules': fired})
     if err is not None and m.allow_error:
       return ('caught', m.id, {'id': m.id, 'analysis_error': err[:200]})
